@@ -107,6 +107,17 @@ func (e *Enc) libModel(fr *Frame, full string, callee *ssa.Function, args []Val,
 (assert (forall ((x Str)) (! (= (peer_str_inv (peer_str x)) x) :pattern ((peer_str x)))))`)
 		e.note("peer.ID.String is a deterministic injective function of the peer ID")
 		return Val{T: "(peer_str " + args[0].T + ")", S: "Str"}, true
+	case "github.com/gogo/protobuf/proto.String", "github.com/gogo/protobuf/proto.Bool", "github.com/gogo/protobuf/proto.Uint64",
+		"github.com/gogo/protobuf/proto.Int32", "github.com/gogo/protobuf/proto.Int64", "github.com/gogo/protobuf/proto.Uint32":
+		// proto.X(v) returns a pointer to a fresh variable holding v
+		pt, ok := resType.Underlying().(*types.Pointer)
+		if !ok {
+			return Val{}, false
+		}
+		r := e.newObject(cur, "protoval")
+		c := e.cellComp(pt.Elem())
+		e.set(cur.st, c, store(e.get(cur.st, c), r, args[0].T))
+		return Val{T: r, S: "Ref", Typ: resType}, true
 	case "math/rand.Intn", "math/rand.Int63n", "math/rand.Int31n":
 		e.safety(fr, cur, "randn", pos, "(> "+args[0].T+" 0)", instr)
 		v := e.freshVal("rnd", types.Typ[types.Int], cur)
